@@ -213,9 +213,9 @@ func writeReplay(evDir, id string, n int, f Finding, undecided []string) string 
 	_ = os.MkdirAll(dir, 0o755)
 	path := filepath.Join(dir, fmt.Sprintf("%s-%d.json", id, n))
 	m := map[string]interface{}{
-		"property": id,
-		"kind":     "violation",
-		"finding":  f,
+		"property":      id,
+		"kind":          "violation",
+		"finding":       f,
 		"how_to_replay": "cd /verif && ./run.sh " + id + " quick   # the check is static: re-running it on the same tree reproduces the report",
 	}
 	if undecided != nil {
